@@ -414,6 +414,7 @@ class Interp(object):
     def fresh_obj_indexed(self, td, base, i):
         """Object whose scalar fields are UFs of the index i (no forking)."""
         o = SObj(td.args[0], label='%s[%s]' % (base, i))
+        o.index = i
         for k, ftd in td.kw.items():
             if k.startswith('__'):
                 continue
@@ -1610,6 +1611,8 @@ class Interp(object):
             iz = z3.Int(self.path.fresh_name('%s.%s' % (tag, idxname)))
             self.path.assume(z3.And(iz >= 0, iz <= lst.n))
             idx = SInt(iz)
+            self.ghost.setdefault('loop_index', {})[ordinal] = idx
+            self.ghost.setdefault('loop_seq', {})[ordinal] = lst
         for label, src in spec.invariants:
             self.path.assume(zbool(self.spec_bool(src, inv_env(idx), fr.module)))
         # 4. one arbitrary iteration, or exit
